@@ -45,10 +45,12 @@ def Stack.at (s : Stack) : Nat → Val
 
 /-! ### declaration level -/
 
-/-- one parameter: `arg.typemap.LUA_type` and `arg.init is not None` -/
+/-- one parameter: `arg.typemap.LUA_type`, `arg.init is not None` (whatever the value: 0, 0.0 and ""
+    are defaults too) and, for `Class *arg`, the class (`arg.typemap.base == "shadow"`) -/
 structure Param where
   ltype : LType
   hasInit : Bool
+  cls : Option Nat        -- class-pointer argument: the wrapped class whose userdata is required
   deriving DecidableEq, Repr
 
 /-- one overload: parameters and `ast.get_subprogram() == "function"` -/
@@ -74,6 +76,7 @@ structure Call where
   ov : Nat
   types : List LType
   nresults : Nat
+  argCls : List (Option Nat)   -- per argument: class whose userdata `luaL_checkudata` demands
   deriving DecidableEq, Repr
 
 def Call.nargs (c : Call) : Nat := c.types.length
@@ -84,7 +87,7 @@ def nresultsOf (k : Kind) (o : Overload) : Nat :=
   if k = .dtor then 0 else if o.isFunction then 1 else 0
 
 def mkCall (k : Kind) (i : Nat) (o : Overload) (inargs : List Param) : Call :=
-  ⟨i, inargs.map (·.ltype), nresultsOf k o⟩
+  ⟨i, inargs.map (·.ltype), nresultsOf k o, inargs.map (·.cls)⟩
 
 /-- the loop over `function.ast.params`: a call without the parameter and everything after it
     for each parameter that has an initialiser, then the call with all parameters -/
@@ -115,6 +118,7 @@ structure Emit where
   selfIdx : Option Nat     -- `luaL_checkudata(L, selfIdx, metatable)`
   pops : List Nat          -- stack index every call argument is read from
   nresult : Nat
+  argCls : List (Option Nat)   -- `luaL_checkudata(L, idx, "<class>.metatable")` for class arguments
   deriving DecidableEq, Repr
 
 structure Branch where
@@ -152,7 +156,7 @@ def checksFrom (i : Nat) : List LType → List (Nat × LType)
 def selfIdxOf (k : Kind) : Option Nat := if k.selfOffset = 0 then none else some 1
 
 def emitOf (k : Kind) (l : Layout) (ci : Nat) (c : Call) : Emit :=
-  ⟨ci, c.ov, selfIdxOf k, idxFrom (1 + l.popOff) c.nargs, c.nresults⟩
+  ⟨ci, c.ov, selfIdxOf k, idxFrom (1 + l.popOff) c.nargs, c.nresults, c.argCls⟩
 
 def branchOf (k : Kind) (l : Layout) (ci : Nat) (c : Call) : Branch :=
   ⟨checksFrom (1 + l.typeOff) c.types, emitOf k l ci c⟩
@@ -204,12 +208,21 @@ inductive Outcome
   | error (calls : List CallEv)
   deriving DecidableEq, Repr
 
-/-- one `do_function` body; `none`: `luaL_checkudata` raised (before the library is called).
-    `lua_to*` never raise. -/
+/-- the values read for class-pointer arguments are userdata carrying the metatable of the
+    argument's class (`luaL_checkudata` on each of them) -/
+def argsOk : List Val → List (Option Nat) → Bool
+  | v :: vs, some c :: cs => (v.ty == .userdata && v.cls == c) && argsOk vs cs
+  | _ :: vs, none :: cs => argsOk vs cs
+  | _, _ => true
+
+/-- one `do_function` body; `none`: a `luaL_checkudata` (argument or object) raised, before the
+    library is called.  `lua_to*` never raise. -/
 def runEmit (selfOk : Val → Bool) (e : Emit) (s : Stack) : Option CallEv :=
-  match e.selfIdx with
-  | none => some ⟨e.ci, e.ov, none, e.pops.map s.at⟩
-  | some i => if selfOk (s.at i) then some ⟨e.ci, e.ov, some (s.at i), e.pops.map s.at⟩ else none
+  if argsOk (e.pops.map s.at) e.argCls then
+    match e.selfIdx with
+    | none => some ⟨e.ci, e.ov, none, e.pops.map s.at⟩
+    | some i => if selfOk (s.at i) then some ⟨e.ci, e.ov, some (s.at i), e.pops.map s.at⟩ else none
+  else none
 
 def runOne (selfOk : Val → Bool) (e : Emit) (s : Stack) : Outcome :=
   match runEmit selfOk e s with
@@ -252,7 +265,7 @@ def firstMatch (ts : List LType) : Nat → List Call → Option (Nat × Call)
 
 def expectedArgs (calls : List Call) (self : Option Val) (args : List Val) : Outcome :=
   match firstMatch (args.map (·.ty)) 0 calls with
-  | some (ci, c) => .ret [⟨ci, c.ov, self, args⟩] c.nresults
+  | some (ci, c) => if argsOk args c.argCls then .ret [⟨ci, c.ov, self, args⟩] c.nresults else .error []
   | none => .error []
 
 /-- what the property demands for a stack: for a free function or constructor the whole stack is
